@@ -12,7 +12,7 @@ from collections import OrderedDict
 import numpy as np
 from hypothesis import strategies as st
 
-from ..core import Clause, Violation, require
+from ..core import Clause, HarnessError, Violation, require
 from ..oracles import atoms_model as M
 
 RULE = ("histories of 1-30 operations on one System/Atoms pair (initial 1-6 atoms, 0-10 user properties of kinds "
@@ -23,7 +23,7 @@ RULE = ("histories of 1-30 operations on one System/Atoms pair (initial 1-6 atom
         "symbols, safecopy), __getitem__/atoms_ix/prop(index=)/deepcopy extraction (optionally continuing the history on "
         "the extracted object), __setitem__/atoms_ix set from fresh Atoms/System or from an overlapping slice of itself, "
         "scaled get/set, symbols/masses/pbc setters, df/atoms_df, documented refusals.  Values are handed over as fresh "
-        "ndarray, nested list, tuple, non-contiguous / read-only ndarray, integer-typed whole numbers or numpy scalars.  After "
+        "ndarray, nested list, tuple, non-contiguous / read-only ndarray, integer-typed whole numbers (int8..int64, uint8..uint64, bool for 0/1 floats, Python ints) or numpy scalars.  After "
         "every step the derived quantities (views, natoms, Atoms.natypes/atypes, System.symbols/masses/natypes/atypes, "
         "str(system), composition, pbc, df) are read in a generated order, with a generated subset of the per-type reads left "
         "out, so that the order and absence of reads is part of the history.  Non-trivial: the history "
@@ -66,14 +66,67 @@ FLOAT3 = ['pos', 'f3']
 # Forms in which a value is handed to the code under test (case field 'aslist'; False/True are the two original forms):
 #   0 fresh C-contiguous ndarray of the model dtype      1 nested Python list
 #   2 non-contiguous ndarray (strided view / Fortran order)   3 read-only ndarray
-#   4 tuple of rows                                      5 integer-typed: whole-number floats as int64, ints as int32
+#   4 tuple of rows                                      5 integer-typed: whole-number floats / ints in an integer-like dtype
 #   6 numpy scalars (a list of numpy scalars / of row arrays for a full value)
 # All forms are array_like with the same values, so the model is the same for every form.  Form 5 needs whole-number float
-# values (Src(whole=True)) and a float property that already exists (a *new* property rightly takes the dtype it is given);
+# values (Src(whole=...)) and a float property that already exists (a *new* property rightly takes the dtype it is given);
 # form 3 is kept away from the routes documented as storing the array itself (attribute/view set of a new key, Atoms()
 # constructor of the object under test), where a read-only argument legitimately makes a read-only property.
+# Form 5 comes in variants, encoded in the tens digit of the case field (5, 15, 25, ... 95; afc() = form, afv() = variant):
+# the integer-like dtype the values are handed over in, INT_VARIANTS[variant].  Variant 0 is the original one (floats as int64,
+# ints as int32).  Float values are generated to suit the variant (unsigned: non-negative whole numbers, bool: 0 / 1); where a
+# value still does not fit (negative ints for an unsigned dtype, any int property for bool, |v| >= 128 for 8 bits) the
+# signed / next wider dtype is taken.  'pyint' hands over nested lists of Python ints / a Python int.
 AF_LABEL = {2: 'af:noncontig', 3: 'af:readonly', 4: 'af:tuple', 5: 'af:int', 6: 'af:npscalar'}
 NPSCALAR = {'t': np.int64, 'i': np.int64, 'f': np.float64, 'b': np.bool_}
+INT_VARIANTS = ['int64', 'int32', 'int16', 'int8', 'uint8', 'uint16', 'uint32', 'uint64', 'bool', 'pyint']
+
+
+def afc(aslist):
+    """form number (see the table) of the case field 'aslist'"""
+    return int(aslist) % 10
+
+
+def afv(aslist):
+    """variant of form 5: index into INT_VARIANTS"""
+    return (int(aslist) // 10) % len(INT_VARIANTS)
+
+
+def whole_of(aslist):
+    """the `whole` mode of the value source that suits the form: False, or True / 'u' / 'b' for the integer-typed form"""
+    if afc(aslist) != 5:
+        return False
+    name = INT_VARIANTS[afv(aslist)]
+    return 'b' if name == 'bool' else 'u' if name.startswith('uint') else True
+
+
+def int_typed(arr, kind, variant, used=None):
+    """arr (whole numbers, model dtype) in the integer-like dtype of the variant, or the nearest one that holds the values"""
+    name = INT_VARIANTS[variant]
+    if variant == 0:
+        name = 'int64' if kind == 'f' else 'int32'          # the original form
+    if name == 'pyint':
+        if used is not None:
+            used.add('af:int:pyint')
+        return arr.astype(np.int64).tolist()
+    if name == 'bool' and (kind != 'f' or not bool(np.all((arr == 0) | (arr == 1)))):      # bool stands for 0 / 1 float values only
+        name = 'int8'
+    if name.startswith('uint') and arr.size and float(arr.min()) < 0:
+        name = name[1:]
+    while name not in ('int64', 'uint64', 'bool'):
+        info = np.iinfo(name)
+        if arr.size == 0 or (info.min <= float(arr.min()) and float(arr.max()) <= info.max):
+            break
+        name = {'int8': 'int16', 'int16': 'int32', 'int32': 'int64', 'uint8': 'uint16', 'uint16': 'uint32', 'uint32': 'uint64'}[name]
+    out = arr.astype(name)
+    if not np.array_equal(out.astype(arr.dtype), arr):
+        raise HarnessError('values %r do not fit %s' % (arr.tolist(), name))
+    if used is not None:
+        used.add('af:int:bool' if name == 'bool' else 'af:int:unsigned' if name.startswith('u') else
+                 'af:int:int64' if name == 'int64' else 'af:int:narrow')
+        if kind == 'f' and name != 'int64':
+            used.add('af:int:float_as_not64')       # whole-number floats in an integer dtype other than the platform default
+    return out
 
 
 def noncontig(arr):
@@ -88,7 +141,7 @@ def noncontig(arr):
 
 def to_arg(values, kind, tshape, aslist, used=None):
     """argument for the code under test: see the table of forms above; used (a set) receives the label of the form taken"""
-    af = int(aslist)
+    af = afc(aslist)
     arr = M.to_array(values, kind, tshape)
     if len(values) == 0:
         return arr
@@ -117,20 +170,16 @@ def to_arg(values, kind, tshape, aslist, used=None):
             used.add(AF_LABEL[3])
         return arr
     if af == 5:
-        if kind == 'f' and bool(np.all(arr == np.floor(arr))):
+        if (kind == 'f' and bool(np.all(arr == np.floor(arr)))) or kind in 'ti':
             if used is not None:
                 used.add(AF_LABEL[5])
-            return arr.astype(np.int64)
-        if kind in 'ti':
-            if used is not None:
-                used.add(AF_LABEL[5])
-            return arr.astype(np.int32)
+            return int_typed(arr, kind, afv(aslist), used)
     return arr
 
 
 def one_arg(v, kind, tshape, aslist, new=False, used=None):
     """a single per-atom value: Python scalar / nested list, or ndarray of shape tshape (forms as in to_arg)"""
-    af = int(aslist)
+    af = afc(aslist)
     if af == 5 and new:
         af = 0
     if kind == 's':
@@ -162,14 +211,13 @@ def one_arg(v, kind, tshape, aslist, new=False, used=None):
             used.add(AF_LABEL[3])
         return arr
     if af == 5:
-        if kind == 'f' and bool(np.all(arr == np.floor(arr))):
+        if (kind == 'f' and bool(np.all(arr == np.floor(arr)))) or kind in 'ti':
             if used is not None:
                 used.add(AF_LABEL[5])
-            return int(v) if tshape == () else arr.astype(np.int64)
-        if kind in 'ti':
-            if used is not None:
-                used.add(AF_LABEL[5])
-            return arr.astype(np.int32)
+            if kind == 'f' and tshape == () and afv(aslist) in (0, INT_VARIANTS.index('pyint')):
+                return int(v)
+            out = int_typed(arr, kind, afv(aslist), used)
+            return out[()] if tshape == () and isinstance(out, np.ndarray) and afv(aslist) % 2 else out     # numpy scalar / 0-d array
     return arr
 
 
@@ -211,7 +259,7 @@ def check_atoms(atoms, rows, schema, what, mirror=True, width=None, intok=False)
         require(isinstance(arr, np.ndarray), lambda: '%s: view[%r] is %r, not ndarray' % (what, name, type(arr)))
         require(arr.shape == (n,) + tuple(tshape),
                 lambda: '%s: view[%r].shape=%r, expected %r (one entry per atom)' % (what, name, arr.shape, (n,) + tuple(tshape)))
-        require(arr.dtype.kind in M.NPKIND[kind] or (intok and kind == 'f' and arr.dtype.kind in 'iu'),
+        require(arr.dtype.kind in M.NPKIND[kind] or (intok and kind == 'f' and arr.dtype.kind in 'iub'),
                 lambda: '%s: view[%r].dtype=%r, property was created as %s' % (what, name, arr.dtype, M.DT[kind]))
         if width is not None and kind == 's':
             require(arr.dtype.itemsize // 4 == width.get(name, 4),
@@ -236,6 +284,8 @@ def scribble(arr):
         arr[...] = ~arr
     elif k == 'U':
         arr[...] = '#'
+    elif k in 'iu' and arr.dtype.itemsize < 8:
+        arr[...] = ~arr             # narrow integer dtypes (integer-typed value forms): v -> -v-1 / max-v, never v itself
     else:
         arr[...] = arr + 1000
     return True
@@ -355,7 +405,7 @@ class Run:
             schema[name] = (kind, tshape)
             # integer-typed form only for properties the object under test already has (as float64): a property that
             # only the argument has rightly keeps the integer dtype it was given
-            kw[name] = self.to_arg(vals, kind, tshape, aslist if (int(aslist) != 5 or name in self.m.schema) else 0)
+            kw[name] = self.to_arg(vals, kind, tshape, aslist if (afc(aslist) != 5 or name in self.m.schema) else 0)
         if reverse:
             kw = OrderedDict(reversed(list(kw.items())))
         if via_prop:
@@ -594,9 +644,9 @@ class Run:
         new = name not in m.schema
         n = m.n
         aslist = op['aslist']
-        src = M.Src(op['vals'], tmax=op['tmax'], whole=(int(aslist) == 5))
+        src = M.Src(op['vals'], tmax=op['tmax'], whole=whole_of(aslist))
         mode = op['mode']
-        if new and (int(aslist) == 5 or (int(aslist) == 3 and op['via'] in ('attr', 'view'))):
+        if new and (afc(aslist) == 5 or (afc(aslist) == 3 and op['via'] in ('attr', 'view'))):
             aslist = 0          # see the table of forms
         if mode == 'scalar' and tshape != ():
             mode = 'len1'
@@ -663,7 +713,7 @@ class Run:
         if form == 'all':
             idx = slice(None)
         aslist = op['aslist']
-        src = M.Src(op['vals'], tmax=op['tmax'], whole=(int(aslist) == 5))
+        src = M.Src(op['vals'], tmax=op['tmax'], whole=whole_of(aslist))
         if form == 'int' or op['vmode'] == 'one':
             v = src.one(kind, tshape)
             arg = self.one_arg(v, kind, tshape, aslist)
@@ -684,7 +734,7 @@ class Run:
 
     def op_scaled_set(self, op):
         m, s = self.m, self.s
-        src = M.Src(op['vals'], whole=(int(op['aslist']) == 5))
+        src = M.Src(op['vals'], whole=whole_of(op['aslist']))
         name = FLOAT3[op['name'] % 2]
         spec = op['idx']
         if name not in m.schema and spec['k'] != 'all':
@@ -847,7 +897,7 @@ class Run:
         if n + n_other > NMAX:
             self.labels.add('skip_nmax')
             return
-        src = M.Src(op['vals'], tmax=op['tmax'], whole=(int(op['aslist']) == 5))
+        src = M.Src(op['vals'], tmax=op['tmax'], whole=whole_of(op['aslist']))
         scale = bool(op['scale']) and via == 'system' and op['what'] == 'atoms'
         if op['what'] == 'int':
             value = n_other
@@ -916,7 +966,7 @@ class Run:
             raise
         # operands unchanged (the System/Atoms extended is re-checked by self.check(); the argument here)
         if other is not None:
-            intok = int(op['aslist']) == 5
+            intok = afc(op['aslist']) == 5
             check_atoms(other, osnap, oschema, '%s: argument of %s after the call' % (self.where, what), intok=intok)
             self.retire('%s (the argument)' % what, other, osnap, oschema, intok=intok)
         check_atoms(atoms, m.rows, m.schema, '%s: operand of %s after the call' % (self.where, what))
@@ -953,11 +1003,11 @@ class Run:
         atoms = s.atoms
         via = op['via']
         form, idx, sel = self.resolve(op['idx'])
-        src = M.Src(op['vals'], tmax=op['tmax'], whole=(int(op['aslist']) == 5))
+        src = M.Src(op['vals'], tmax=op['tmax'], whole=whole_of(op['aslist']))
         count = 1 if (form == 'int' or op['vmode'] == 'one' or not sel) else len(sel)
         names = [x for x in m.schema if x not in ('atype', 'pos')]
         af = op['aslist']
-        if via == 'sysprop_scaled' and int(af) == 3:
+        if via == 'sysprop_scaled' and afc(af) == 3:
             af = 0      # this route unscales the positions of the value in place (tolerated before: the value is not re-checked)
         value, vrows, vschema = self.build_atoms(count, names, src, af, reverse=bool(op['reverse']))
         vsnap = [dict(r) for r in vrows]
@@ -990,7 +1040,7 @@ class Run:
             last = {}
             for i, e in zip(sel, exp):
                 last[i] = e
-            intpos = value.view['pos'].dtype.kind in 'iu'       # input class of the finding KEY_INTPOS
+            intpos = value.view['pos'].dtype.kind in 'iub'      # input class of the finding KEY_INTPOS
             try:
                 self.sync_float3('pos', list(last), [last[i] for i in last], what)
             except Violation as v:
@@ -999,10 +1049,15 @@ class Run:
                                     key=KEY_INTPOS)
                 raise
             self.labels.add('scaled_atoms_set')
+            if afc(op['aslist']) == 5:
+                # the value's whole-number positions were handed to Atoms() integer-typed (they have to be stored as floats)
+                self.labels.add('scaled_atoms_set_inttyped')
+                if INT_VARIANTS[afv(op['aslist'])] not in ('int64', 'pyint'):
+                    self.labels.add('scaled_atoms_set_int_not64')
             if intpos:
                 self.labels.add('scaled_atoms_set_intpos')
         else:
-            check_atoms(value, vsnap, vschema, '%s: value of %s after the call' % (self.where, what), intok=(int(op['aslist']) == 5))
+            check_atoms(value, vsnap, vschema, '%s: value of %s after the call' % (self.where, what), intok=(afc(op['aslist']) == 5))
         self.indexed_write()
 
     def op_setself(self, op):
@@ -1033,10 +1088,10 @@ class Run:
         kind, tshape = M.KINDS[name]
         new = name not in m.schema
         aslist = op['aslist']
-        src = M.Src(op['vals'], whole=(int(aslist) == 5))
+        src = M.Src(op['vals'], whole=whole_of(aslist))
         na = m.natypes_atoms()
         mode = op['mode']
-        if new and int(aslist) == 5:
+        if new and afc(aslist) == 5:
             aslist = 0          # see the table of forms
         if mode == 'all':
             vals = src.many(kind, tshape, na)
@@ -1227,7 +1282,8 @@ VMODE = st.sampled_from(['one', 'many', 'many'])
 SYMS = st.lists(st.sampled_from(['Al', 'Cu', 'Fe', 'O', 'H', 'Ni']), max_size=5)
 MASSV = st.one_of(st.none(), I(1, 240).map(lambda k: k / 4.0), I(1, 60))
 MASSES = st.lists(MASSV, max_size=5)
-AF = st.sampled_from([False, True, False, True, 2, 3, 4, 5, 5, 6])       # forms of a value argument: table above to_arg
+# forms of a value argument (table above to_arg): two in ten integer-typed, spread over the ten variants of that form
+AF = st.sampled_from([f for f in (False, True, False, True, 2, 3, 4, 6) for _ in range(5)] + [5 + 10 * k for k in range(len(INT_VARIANTS))])
 # order of the reads after a step (number of a permutation of READS; 0 = the original order) and per-type reads left out
 RD = FD({'o': st.one_of(J(0), I(0, NPERM - 1), I(0, NPERM - 1)), 'skip': st.one_of(J(0), J(0), J(0), I(0, 63), J(63), J(63))})
 
@@ -1284,7 +1340,9 @@ CLAUSES = [
                       'rd:permuted': 0.4, 'rd:quiet': 0.4, 'rd:subset': 0.33, 'rd:mas_first': 0.25, 'rd:nty_first': 0.22,
                       'rd:mas_first_after_inplace_growth': 0.018, 'rd:nty_first_after_inplace_growth': 0.015,
                       'rd:quiet_after_inplace_growth': 0.08, 'pad_uncertain': 0.012,
-                      'af:int': 0.22, 'af:noncontig': 0.14, 'af:npscalar': 0.2, 'af:readonly': 0.19, 'af:tuple': 0.2},
+                      'af:int': 0.22, 'af:int:narrow': 0.16, 'af:int:unsigned': 0.1, 'af:int:bool': 0.02, 'af:int:pyint': 0.035,
+                      'af:int:int64': 0.045, 'af:int:float_as_not64': 0.16, 'scaled_atoms_set_inttyped': 0.012,
+                      'scaled_atoms_set_int_not64': 0.009, 'af:noncontig': 0.14, 'af:npscalar': 0.2, 'af:readonly': 0.19, 'af:tuple': 0.2},
            desc='edit histories on one System/Atoms pair against a record-per-atom model: rectangular, row-aligned, model-equal, '
                 'atype >= 1, symbols/masses long enough after every step; copying accessors do not alias; operands of '
                 'new-object operations unchanged; refusals leave the state unchanged'),
